@@ -918,6 +918,7 @@ SPEC_FORMS = {
     "fromhex": lambda ex, node, st: VBytes(uf(ex, "FROMHEX", S, S)(ex.eval(node.args[0], st).z)),
     "is_hexstr": lambda ex, node, st: VBool(uf(ex, "ISHEXSTR", S, B)(ex.eval(node.args[0], st).z)),
     "urlsplit_raises": lambda ex, node, st: VBool(uf(ex, "URLSPLIT_RAISES", S, B)(ex.eval(node.args[0], st).z)),
+    "url_has_host": lambda ex, node, st: (lambda t: VBool(z3.And(z3.Not(uf(ex, "URLHOSTNAME_NONE", S, B)(t)), z3.Length(uf(ex, "URLHOSTNAME", S, S)(t)) > 0)))(ex.eval(node.args[0], st).z),
     "url_has_netloc": _url_part("hasnl"),
     "url_has_query": _url_part("hasq"),
     "url_has_fragment": _url_part("hasf"),
